@@ -241,7 +241,7 @@ var alphabet = []string{
 	"/re/", "/r", // REGEX, unterminated
 	"1", "1.5", "1.2.3", // INT, DECIMAL, second dot
 	"// c", "/* c */", "/* u", // COMMENT, BLOCK_COMMENT, unterminated block comment
-	"| d",                                                 // DESCRIPTION
+	"| d", "|d\u3000\u3000", // DESCRIPTION, ending in multi-byte white space
 	"\n",                                                  // EOL
 	"=", "{", "}", "[", "]", ".", ",", ":", "+", "!", "?", // operators
 	"#", // a character no token starts with
@@ -299,7 +299,7 @@ func TestExhaustive(t *testing.T) {
 // ---------------------------------------------------------------------------
 // lane 2: random strings over the full Unicode range and raw bytes
 
-var hostile = []string{"\"", "\\", "/", "/*", "*/", "//", "|", "\n", "\r\n", "\t", "{", "}", "[", "]", "=", "+=", ":", ".", ",", "!", "?", "0", "9.", "a", "é", " ", "\x00", "\xff", " ", "٣"}
+var hostile = []string{"\"", "\\", "/", "/*", "*/", "//", "|", "\n", "\r\n", "\t", "{", "}", "[", "]", "=", "+=", ":", ".", ",", "!", "?", "0", "9.", "a", "é", " ", "\x00", "\xff", " ", "٣", "\u3000", "\u3000\u3000", "\u2029", "\u0085", "\u1680", "\u200b", "\ufeff", "\U0001F600"}
 
 func genRandom() *rapid.Generator[string] {
 	return rapid.Custom(func(t *rapid.T) string {
